@@ -258,6 +258,22 @@ func build(scratch string, fidelity bool) *Built {
 	if len(res.EcoDirs) == 0 {
 		fail2("no ecosystem packages found under pkg/ecosystem")
 	}
+	// hot yield sites (statements with atomic / sync operations) for the simulator
+	{
+		var sb strings.Builder
+		sb.WriteString("// Code generated by vsim build; DO NOT EDIT.\n\npackage simrt\n\nfunc init() {\n\thotList = []uint32{")
+		for _, st := range res.Sites {
+			if st.Hot {
+				fmt.Fprintf(&sb, "%d, ", st.ID)
+			}
+		}
+		sb.WriteString("}\n}\n")
+		for _, d := range []string{b.Inst, b.Plain} {
+			if err := os.WriteFile(filepath.Join(d, "zz_sim", "simrt", "hot_gen.go"), []byte(sb.String()), 0o644); err != nil {
+				fail2("hot sites: %v", err)
+			}
+		}
+	}
 	for _, d := range []string{b.Inst, b.Plain} {
 		if err := writeRegistry(filepath.Join(d, "zz_sim", "harness"), res.ModPath, res.EcoDirs); err != nil {
 			fail2("registry: %v", err)
